@@ -62,6 +62,7 @@ def main():
     ap = argparse.ArgumentParser()
     ap.add_argument("--props", nargs="*", default=None)
     ap.add_argument("--benign", action="store_true")
+    ap.add_argument("--only", default=None, help="substring filter on patch paths")
     ap.add_argument("--out", default=os.path.join(HERE, "mutants", "results.json"))
     a = ap.parse_args()
     idx = json.load(open(os.path.join(HERE, "mutants", "index.json")))
@@ -72,6 +73,8 @@ def main():
     for m in idx:
         if a.props and m["property"] not in a.props:
             continue
+        if a.only and (a.only not in m["patch"]):
+            continue
         r = evaluate(m["patch"], [m["property"]], fixture, cache)
         det = r["status"] == "ran" and bool(r["findings"][m["property"]])
         results.append({"patch": m["patch"], "property": m["property"], "kind": m["kind"], "status": r["status"], "detected": det,
@@ -80,6 +83,8 @@ def main():
     if a.benign or not a.props:
         bdir = os.path.join(HERE, "mutants", "benign")
         for fn in sorted(os.listdir(bdir)):
+            if not fn.endswith(".diff") or (a.only and a.only not in "benign/" + fn):
+                continue
             r = evaluate("benign/" + fn, ALL, fixture, cache)
             noisy = {p: ks for p, ks in (r.get("findings") or {}).items() if ks}
             results.append({"patch": "benign/" + fn, "kind": "benign", "status": r["status"], "silent": r["status"] == "ran" and not noisy, "noisy": noisy, "why": r.get("why")})
